@@ -24,7 +24,6 @@ package main
 import (
 	"fmt"
 	"net"
-	"runtime"
 	"strconv"
 	"strings"
 	"sync"
@@ -36,7 +35,7 @@ import (
 )
 
 func init() {
-	register(&Prop{ID: "C11", Gen: genC11, Run: runEngOp, Timeout: 30 * time.Second})
+	register(&Prop{ID: "C11", Gen: genC11, Run: runEngOp, Timeout: 10 * time.Minute})
 }
 
 type g3Step struct {
@@ -273,9 +272,9 @@ func runEngOp(op string) string {
 	if ngs > 0 {
 		perturb = func(string) { g3Gosched(ngs) }
 	}
-	fx := newG3Fixture(p, role, g3FixOpts{perturb: perturb})
+	fx := newG3Fixture(p, role, g3FixOpts{perturb: perturb, slowTimers: true})
 	defer fx.close()
-	attempts, handles, wantErr, garbage := g3Predict(p, role, locals, peers)
+	attempts, handles, wantErr, _ := g3Predict(p, role, locals, peers)
 	var wg sync.WaitGroup
 	wg.Add(2)
 	go func() {
@@ -317,9 +316,12 @@ func runEngOp(op string) string {
 		}
 		flush()
 	}()
-	// wait for the predicted end of the conversation
-	fx.waitFor(4*time.Second, func(ev []g3Event, _ []uint8) bool {
-		na, nh, ne := 0, 0, 0
+	// Wait for the predicted end of the conversation.  Every wait below is on hook events (or
+	// on bytes received by the raw peer), never on elapsed time; the deadline only matters
+	// when the engine is really stuck.
+	ended := fx.waitFor(g3Deadline, func(ev []g3Event, _ []uint8) bool {
+		na, nh, ne, nstop := 0, 0, 0, 0
+		var deqB, segB uint64
 		for _, e := range ev {
 			switch e.Kind {
 			case "trans", "transerr":
@@ -328,27 +330,38 @@ func runEngOp(op string) string {
 				nh++
 			case "error":
 				ne++
+			case "stop":
+				nstop++
+			case "deq":
+				deqB += e.B
+			case "seg":
+				segB += e.A
 			}
+		}
+		// an error that stopped the protocol ends every scenario (expected or not)
+		if ne > 0 && nstop > 0 {
+			return true
 		}
 		if wantErr {
-			if garbage {
-				return ne > 0
-			}
-			return ne > 0 && na >= attempts
+			return false
 		}
-		return na >= attempts && nh >= handles
+		// no error expected: every transition applied, every handler returned, and every
+		// dequeued message handed to the muxer
+		return na >= attempts && nh >= handles && segB >= deqB
 	})
-	// let whatever else is runnable run (nothing below depends on how long this is)
-	for i := 0; i < 200; i++ {
-		runtime.Gosched()
+	if !ended {
+		return "STUCK (conversation did not reach its predicted end within the deadline)"
 	}
-	time.Sleep(2 * time.Millisecond)
+	// everything handed to the muxer so far must have reached the peer before the wire is read
+	if !fx.waitWireDrained() {
+		return "STUCK (peer did not receive the segments handed to the muxer)"
+	}
 	done := make(chan struct{})
 	go func() { wg.Wait(); close(done) }()
 	fx.close()
 	select {
 	case <-done:
-	case <-time.After(2 * time.Second):
+	case <-time.After(g3Deadline):
 	}
 	ev, wire := fx.snapshot()
 	ls := []*g3Sample{}
@@ -530,6 +543,17 @@ func runPairOp(hd []string, toks []string) string {
 			}
 			return nil
 		}
+		sm := cfg.StateMap.Copy()
+		for s, e := range sm {
+			if e.Timeout > 0 && e.Timeout < time.Hour {
+				e.Timeout = time.Hour
+			}
+			if e.TimeoutFunc != nil {
+				e.TimeoutFunc = func() time.Duration { return time.Hour }
+			}
+			sm[s] = e
+		}
+		cfg.StateMap = sm
 		f.cfg = cfg
 		return f
 	}
@@ -604,29 +628,33 @@ func runPairOp(hd []string, toks []string) string {
 		}
 		return n, e
 	}
-	deadline := time.Now().Add(5 * time.Second)
+	deadline := time.Now().Add(g3Deadline)
+	ended := false
 	for time.Now().Before(deadline) {
 		na, ea := cnt(fa, len(sv))
 		nb, eb := cnt(fb, len(cl))
 		if (na >= total && nb >= total) || ea > 0 || eb > 0 {
+			ended = true
 			break
 		}
-		fa.waitFor(20*time.Millisecond, func([]g3Event, []uint8) bool { return false })
+		// poll on either side's next event (both fixtures have their own condition variable)
+		fa.waitFor(10*time.Millisecond, func([]g3Event, []uint8) bool { return false })
 	}
-	for i := 0; i < 200; i++ {
-		runtime.Gosched()
+	if !ended {
+		return "STUCK (pair conversation did not complete within the deadline)"
 	}
-	time.Sleep(2 * time.Millisecond)
 	for _, f := range []*g3Fixture{fa, fb} {
-		f.P.Stop()
 		f.mux.Stop()
 	}
 	_ = a.Close()
 	_ = b.Close()
 	for _, f := range []*g3Fixture{fa, fb} {
+		f.P.Stop()
+	}
+	for _, f := range []*g3Fixture{fa, fb} {
 		select {
 		case <-f.P.DoneChan():
-		case <-time.After(500 * time.Millisecond):
+		case <-time.After(g3Deadline):
 		}
 	}
 	g3FixMu.Lock()
